@@ -1,217 +1,11 @@
-import OnetVerif.Model.Util
-/-! Model for property C19 — simulation statistics (`simul/monitor/stats.go`,
-`bucket_stats.go`, `monitor.go`), as repaired by the `fix:` commits (reset of the accumulators on
-every `Collect`, first value initialises `max`, `AverageStats` unlocks, `BucketStats.Set` is
-all-or-nothing).
-
-Core-only (no Mathlib): the driver instantiates the number type with `Float` (IEEE double, same
-operation order as the Go code, so the comparison with `math.Float64bits` is bit-exact); the
-theorems in `Props/C19.lean` instantiate it with an arbitrary linearly ordered field (ℚ, ℝ, …).
-
-No outlier filter is configured (premise of the property): `Value.Filter` is the identity. -/
+import OnetVerif.Model.C19Core
+import OnetVerif.Model.C19Net
+/-! Model for property C19 — simulation statistics.  The model proper is in `Model/C19Core.lean`
+(accumulators, result sets, averaging, bucket rules, `Monitor.update`, rule parsing) and
+`Model/C19Net.lean` (the monitor's network side: reporting connections, their handler routines, the
+`Listen` loop, the read-out of the simulation driver).  This file is the line-protocol front end on
+`Float`. -/
 namespace C19
-
-/-- the arithmetic the accumulator code uses, in the order the Go code uses it -/
-class Num (α : Type) where
-  add : α → α → α
-  sub : α → α → α
-  mul : α → α → α
-  div : α → α → α
-  ofNat : Nat → α
-  lt : α → α → Bool
-  sqrt : α → α
-
-/-- order on measure names (`sort.Strings` on `Stats.keys`) -/
-class KeyOrd (κ : Type) where
-  lt : κ → κ → Bool
-
-section generic
-variable {α κ : Type}
-
-/-- `type Value struct` (stats.go:346-365): the carried accumulators and the store -/
-structure Value (α : Type) where
-  n : Nat
-  min : α
-  max : α
-  sum : α
-  oldM : α
-  newM : α
-  oldS : α
-  newS : α
-  dev : α
-  store : List α
-
-variable [Num α]
-
-/-- `float64` zero -/
-def zero : α := Num.ofNat 0
-
-/-- `NewValue(name)` / `new(Value)` -/
-def Value.new : Value α :=
-  { n := 0, min := zero, max := zero, sum := zero, oldM := zero, newM := zero, oldS := zero,
-    newS := zero, dev := zero, store := [] }
-
-/-- `Value.Store` (stats.go:377-381) -/
-def Value.put (t : Value α) (x : α) : Value α := { t with store := t.store ++ [x] }
-
-/-- the reset at the head of `Value.Collect` (the `fix:`; before it only `sum` was cleared) -/
-def Value.reset (t : Value α) : Value α := { (Value.new : Value α) with store := t.store }
-
-/-- one iteration of the loop of `Value.Collect` (stats.go:397-420) -/
-def Value.step (t : Value α) (x : α) : Value α :=
-  let mn := if Num.lt x t.min || t.n == 0 then x else t.min      -- `t.min > newTime || t.n == 0`
-  let mx := if Num.lt t.max x || t.n == 0 then x else t.max      -- `t.max < newTime || t.n == 0`
-  let n := t.n + 1                                               -- `t.n++`
-  if n == 1 then
-    { t with n := n, min := mn, max := mx, oldM := x, newM := x, oldS := zero,
-             dev := Num.sqrt (Num.div t.newS (Num.ofNat (n - 1))), sum := Num.add t.sum x }
-  else
-    let newM := Num.add t.oldM (Num.div (Num.sub x t.oldM) (Num.ofNat n))
-    let newS := Num.add t.oldS (Num.mul (Num.sub x t.oldM) (Num.sub x newM))
-    { t with n := n, min := mn, max := mx, oldM := newM, newM := newM, oldS := newS, newS := newS,
-             dev := Num.sqrt (Num.div newS (Num.ofNat (n - 1))), sum := Num.add t.sum x }
-
-/-- `Value.Collect` -/
-def Value.collect (t : Value α) : Value α := t.store.foldl Value.step t.reset
-
-/-- `Value.Values()`: min, max, avg, sum, dev — the five CSV columns of a measure -/
-def Value.values (t : Value α) : List α := [t.min, t.max, t.newM, t.sum, t.dev]
-
-/-- `AverageValue` (stats.go:430-448) on values of one name: only the stores are joined -/
-def averageValue (vs : List (Value α)) : Value α :=
-  { (Value.new : Value α) with store := vs.flatMap (·.store) }
-
-/-- `type Stats struct`: the static fields in `staticKeys` order, and `values` + `keys` as one
-association list kept in key order (`keys` is re-sorted after every new name, stats.go:66-69) -/
-structure Stats (κ α : Type) where
-  static : List (String × String) := []
-  vals : List (κ × Value α) := []
-
-variable [KeyOrd κ] [DecidableEq κ]
-
-/-- store `x` under `k`; a new name goes to its place in key order -/
-def upsert (k : κ) (x : α) : List (κ × Value α) → List (κ × Value α)
-  | [] => [(k, (Value.new : Value α).put x)]
-  | (k', v) :: rest =>
-    if k = k' then (k', v.put x) :: rest
-    else if KeyOrd.lt k k' then (k, (Value.new : Value α).put x) :: (k', v) :: rest
-    else (k', v) :: upsert k x rest
-
-/-- `Stats.Update` (stats.go:56-71) -/
-def Stats.update (s : Stats κ α) (k : κ) (x : α) : Stats κ α := { s with vals := upsert k x s.vals }
-
-/-- `Stats.Value(name)` -/
-def Stats.value (s : Stats κ α) (k : κ) : Option (Value α) := (s.vals.find? (·.1 = k)).map (·.2)
-
-/-- `Stats.Collect` (stats.go:277-285), no filter configured -/
-def Stats.collect (s : Stats κ α) : Stats κ α :=
-  { s with vals := s.vals.map fun kv => (kv.1, kv.2.collect) }
-
-/-- the numeric part of the line `WriteValues` writes: per measure, in key order, its five columns -/
-def Stats.row (s : Stats κ α) : List (κ × List α) := s.vals.map fun kv => (kv.1, kv.2.values)
-
-/-- `AverageStats` (stats.go:167-199): static fields and keys of the first result set; per key
-the stores of all result sets that have it, joined in the order of the result sets -/
-def averageStats : List (Stats κ α) → Stats κ α
-  | [] => {}
-  | s0 :: rest =>
-    { static := s0.static,
-      vals := s0.vals.map fun kv => (kv.1, averageValue ((s0 :: rest).filterMap (·.value kv.1))) }
-
-/-- `bucketRule` (bucket_stats.go:10-16) -/
-structure Rule where
-  low : Int
-  high : Int
-  deriving DecidableEq, Repr
-
-/-- `bucketRule.Match` -/
-def Rule.matches (r : Rule) (i : Int) : Bool := decide (r.low ≤ i) && decide (i < r.high)
-
-/-- `bucketRules.Match` (bucket_stats.go:51-65) -/
-def rulesMatch (rr : List Rule) (host : Int) : Bool :=
-  if host < 0 then false else rr.any (·.matches host)
-
-/-- one entry of `BucketStats.rules` / `BucketStats.buckets` -/
-structure Bucket (κ α : Type) where
-  idx : Int
-  rules : List Rule
-  stats : Stats κ α
-
-abbrev BucketStats (κ α : Type) := List (Bucket κ α)
-
-/-- `BucketStats.Set` after all rules parsed (a parse error changes nothing) -/
-def BucketStats.set (bs : BucketStats κ α) (idx : Int) (rules : List Rule) (st : Stats κ α) :
-    BucketStats κ α :=
-  { idx := idx, rules := rules, stats := st } :: bs.filter (·.idx ≠ idx)
-
-/-- a measure as it arrives: name, value, host index -/
-structure Measure (κ α : Type) where
-  name : κ
-  val : α
-  host : Int
-
-/-- `BucketStats.Update` (bucket_stats.go:108-116) -/
-def BucketStats.update (bs : BucketStats κ α) (m : Measure κ α) : BucketStats κ α :=
-  bs.map fun b => if rulesMatch b.rules m.host then { b with stats := b.stats.update m.name m.val } else b
-
-/-- `BucketStats.Get` (bucket_stats.go:98-106): collects the bucket it returns -/
-def BucketStats.get (bs : BucketStats κ α) (idx : Int) : BucketStats κ α × Option (Stats κ α) :=
-  let bs' := bs.map fun b => if b.idx = idx then { b with stats := b.stats.collect } else b
-  (bs', (bs'.find? (·.idx = idx)).map (·.stats))
-
-/-- the part of `Monitor` the statistics live in -/
-structure Monitor (κ α : Type) where
-  global : Stats κ α
-  buckets : BucketStats κ α := []
-
-/-- `Monitor.update` (monitor.go:212-219) -/
-def Monitor.update (m : Monitor κ α) (x : Measure κ α) : Monitor κ α :=
-  { global := m.global.update x.name x.val, buckets := m.buckets.update x }
-
-/-- the read-out operations that may precede the final write (print, collect, write header,
-write values); all but the header trigger `Collect` -/
-inductive Readout where
-  | collect | string | header | values
-  deriving DecidableEq, Repr
-
-def Stats.readout (s : Stats κ α) : Readout → Stats κ α
-  | .header => s
-  | _ => s.collect
-
-end generic
-
-/-! ### Parsing of bucket rules (`newBucketRule`, `strconv.Atoi`), on byte strings -/
-
-/-- `strconv.Atoi` on a byte string: one optional sign, at least one digit, digits only, and
-the value must fit `int` (64 bit) -/
-def atoi (bs : List Nat) : Option Int :=
-  let (neg, ds) : Bool × List Nat :=
-    match bs with
-    | 43 :: r => (false, r)
-    | 45 :: r => (true, r)
-    | r => (false, r)
-  if ds.isEmpty || !ds.all (fun c => decide (48 ≤ c) && decide (c ≤ 57)) then none
-  else
-    let v : Nat := ds.foldl (fun a c => a * 10 + (c - 48)) 0
-    if neg then (if v ≤ 2 ^ 63 then some (-(v : Int)) else none)
-    else (if v < 2 ^ 63 then some (v : Int) else none)
-
-/-- `strings.Split(r, ":")` -/
-def splitColon : List Nat → List (List Nat)
-  | [] => [[]]
-  | c :: r =>
-    match splitColon r with
-    | [] => [[c]]     -- unreachable: the result is never empty
-    | h :: t => if c = 58 then [] :: h :: t else (c :: h) :: t
-
-/-- `newBucketRule` (bucket_stats.go:18-41) -/
-def parseRule (bs : List Nat) : Option Rule :=
-  match splitColon bs with
-  | [a, b] =>
-    match atoi a, atoi b with
-    | some lo, some hi => some { low := lo, high := hi }
-    | _, _ => none
-  | _ => none
 
 /-! ### Line-protocol driver on `Float` -/
 namespace Drv
@@ -369,6 +163,38 @@ def parseBits (s : String) : Option (List Float) :=
 def measure (name : String) (x : Float) (host : Int) : Measure String Float :=
   { name := name, val := x, host := host }
 
+/-! the loop-back operations run the transition system of `Model/C19Net.lean` -/
+
+abbrev M := Measure String Float
+
+/-- `k` accepted, idle connections; connection `i` is going to write `futures[i]` -/
+def netOf (m : Monitor String Float) (futures : List (List M)) : Net String Float :=
+  { mon := m, conns := futures.map fun f => { future := f, accepted := true } }
+
+/-- only connection `c` of `k` has something to write -/
+def onlyConn (k c : Nat) (l : List M) : List (List M) := (List.range k).map fun i => if i = c then l else []
+
+/-- connection `i` writes its next record, its handler decodes it and — unless it is the end marker —
+the `Listen` loop takes it -/
+def oneRecord (i : Nat) (m : M) : List Act :=
+  if isEnd m.name then [.write i, .decode i] else [.write i, .decode i, .deliver i]
+
+/-- runs a schedule that must be enabled throughout and must leave nothing undelivered; the monitor after it -/
+def runNet (n : Net String Float) (acts : List Act) : Option (Net String Float) :=
+  match n.run isEnd acts with
+  | some n' => if n'.conns.all fun c => (c.remaining isEnd).isEmpty then some n' else none
+  | none => none
+
+/-- a sequence of connection numbers that explains the arrival order `out`: connection `i` hands over
+`parts[i]` in order (`none`: `out` is no interleaving of the connections' sequences) -/
+def linearise : List (List Float) → List Float → Option (List Nat)
+  | parts, [] => if parts.all (·.isEmpty) then some [] else none
+  | parts, x :: xs =>
+    (List.range parts.length).findSome? fun i =>
+      match parts[i]? with
+      | some (y :: r) => if showF y = showF x then (linearise (parts.set i r) xs).map (i :: ·) else none
+      | _ => none
+
 def step (s : State) (toks : List String) : State × String :=
   match toks with
   | ["stats", name, defs, rest] =>
@@ -404,9 +230,27 @@ def step (s : State) (toks : List String) : State × String :=
     | _, _, _, _ => (s, "bad-op")
   | ["open", n] =>
     match n.toNat?, s.mon with
-    | some n, some _ => if s.nconn = 0 && n > 0 then ({ s with nconn := n }, "ok") else (s, "bad-op")
+    | some n, some mn =>
+      if s.nconn = 0 && n > 0 then
+        -- `Listen` starts, the clients connect and are accepted one after the other
+        match (Net.start mn.m (List.replicate n [])).run isEnd ((List.range n).map Act.accept) with
+        | some _ => ({ s with nconn := n }, "ok")
+        | none => (s, "stuck")
+      else (s, "bad-op")
     | _, _ => (s, "bad-op")
-  | ["close"] => if s.nconn > 0 then ({ s with nconn := 0 }, "ok") else (s, "bad-op")
+  | ["close"] =>
+    match s.mon with
+    | some mn =>
+      if s.nconn = 0 then (s, "bad-op") else
+      -- connection 0 (the package's own client) sends the end marker; everybody hangs up; every handler
+      -- sees EOF; `Listen` must return
+      let k := s.nconn
+      let acts := oneRecord 0 (measure "end" 0.0 (-1)) ++ (List.range k).map Act.hangup ++
+        ((List.range k).reverse.map Act.eof)
+      match runNet (netOf mn.m (onlyConn k 0 [measure "end" 0.0 (-1)])) acts with
+      | some n' => if n'.finished then ({ s with mon := some { mn with m := n'.mon }, nconn := 0 }, "ok") else (s, "stuck")
+      | none => (s, "stuck")
+    | none => (s, "bad-op")
   | ["finish", name, host, bits] =>
     -- the last connection sends its final measures, the end marker and closes, while a reader
     -- holds the result set: every measure is applied before `Listen` returns
@@ -414,8 +258,16 @@ def step (s : State) (toks : List String) : State × String :=
     | some h, some xs, some mn =>
       if s.nconn = 0 then (s, "bad-op")
       else
-        let m' := if isEnd name then mn.m else xs.foldl (fun m x => m.update (measure name x h)) mn.m
-        ({ s with mon := some { mn with m := m' }, nconn := 0 }, "ok")
+        let k := s.nconn
+        let recs := xs.map (fun x => measure name x h) ++ [measure "end" 0.0 (-1)]
+        -- the other connections go first; then connection 0 writes everything and hangs up before the
+        -- `Listen` loop (held up by the reader) takes the first record
+        let acts := (List.range k).tail.flatMap (fun i => [Act.hangup i, .eof i]) ++
+          recs.map (fun _ => Act.write 0) ++ [.hangup 0] ++
+          recs.flatMap (fun m => if isEnd m.name then [Act.decode 0] else [.decode 0, .deliver 0]) ++ [.eof 0]
+        match runNet (netOf mn.m (onlyConn k 0 recs)) acts with
+        | some n' => if n'.finished then ({ s with mon := some { mn with m := n'.mon }, nconn := 0 }, "ok") else (s, "stuck")
+        | none => (s, "stuck")
     | _, _, _ => (s, "bad-op")
   | ["tmeasure", name, host, n, mode, arrived] =>
     -- `TimeMeasure.Record` (measure.go:146-158), n times, of a measure made by
@@ -428,35 +280,40 @@ def step (s : State) (toks : List String) : State × String :=
       if s.nconn = 0 || (mode ≠ "fresh" && mode ≠ "reuse") then (s, "bad-op")
       else if ws.length ≠ n || ss.length ≠ n || us.length ≠ n then (s, "lost-or-duplicated")
       else
-        let recs := (ws.zip (ss.zip us))
-        let m' := recs.foldl (fun m r =>
-          ((m.update (measure (name ++ "_wall") r.1 h)).update (measure (name ++ "_system") r.2.1 h)).update
-            (measure (name ++ "_user") r.2.2 h)) mn.m
-        ({ s with mon := some { mn with m := m' } }, "ok")
+        let recs : List M := (ws.zip (ss.zip us)).flatMap fun r =>
+          [measure (name ++ "_wall") r.1 h, measure (name ++ "_system") r.2.1 h, measure (name ++ "_user") r.2.2 h]
+        match runNet (netOf mn.m (onlyConn s.nconn 0 recs)) (recs.flatMap (oneRecord 0)) with
+        | some n' => ({ s with mon := some { mn with m := n'.mon } }, "ok")
+        | none => (s, "stuck")
     | _, _, _, _ => (s, "bad-op")
   | ["cmeasure", name, host, deltas] =>
     -- `CounterIOMeasure.Record` (measure.go:226-253) of a measure made by
     -- `NewCounterIOMeasure[WithHost]`: per record the four differences, as `float64`
-    let recs : Option (List (List Nat)) :=
+    -- an item `R…` moves the counter and calls `Reset()`: what the counter moved by is not reported
+    let items : Option (List (Option (List Nat))) :=
       (deltas.splitOn ";").mapM fun r =>
-        match (r.splitOn ".").mapM String.toNat? with
-        | some l => if l.length = 4 then some l else none
+        let isR := r.startsWith "R"
+        match ((if isR then (r.drop 1).toString else r).splitOn ".").mapM String.toNat? with
+        | some l => if l.length = 4 then some (if isR then none else some l) else none
         | none => none
-    match parseInt host, recs, s.mon with
+    match parseInt host, items.map (·.filterMap id), s.mon with
     | some h, some recs, some mn =>
       if s.nconn = 0 then (s, "bad-op")
       else
-        let m' := recs.foldl (fun m d =>
-          (["_rx", "_tx", "_msg_rx", "_msg_tx"].zip d).foldl
-            (fun m p => m.update (measure (name ++ p.1) (Float.ofNat p.2) h)) m) mn.m
-        ({ s with mon := some { mn with m := m' } }, "ok")
+        let ms : List M := recs.flatMap fun d =>
+          (["_rx", "_tx", "_msg_rx", "_msg_tx"].zip d).map fun p => measure (name ++ p.1) (Float.ofNat p.2) h
+        match runNet (netOf mn.m (onlyConn s.nconn 0 ms)) (ms.flatMap (oneRecord 0)) with
+        | some n' => ({ s with mon := some { mn with m := n'.mon } }, "ok")
+        | none => (s, "stuck")
     | _, _, _ => (s, "bad-op")
   | ["send", c, name, bits, host] =>
     match c.toNat?, parseF bits, parseInt host, s.mon with
     | some c, some x, some h, some mn =>
       if c ≥ s.nconn then (s, "bad-op")
-      else if isEnd name then (s, "ok")
-      else ({ s with mon := some { mn with m := mn.m.update (measure name x h) } }, "ok")
+      else
+        match runNet (netOf mn.m (onlyConn s.nconn c [measure name x h])) (oneRecord c (measure name x h)) with
+        | some n' => ({ s with mon := some { mn with m := n'.mon } }, "ok")
+        | none => (s, "stuck")
     | _, _, _, _ => (s, "bad-op")
   | ["burst", name, host, parts, arrived] =>
     let ps : Option (List (List Float)) := (parts.splitOn ";").mapM parseBits
@@ -468,7 +325,20 @@ def step (s : State) (toks : List String) : State × String :=
         let sent := if isEnd name then [] else ps.flatten
         if ps.length ≠ s.nconn then (s, "bad-op")
         else if sortStr (sent.map showF) ≠ sortStr (xs.map showF) then (s, "lost-or-duplicated")
-        else ({ s with mon := some { mn with m := xs.foldl (fun m x => m.update (measure name x h)) mn.m } }, "ok")
+        else
+          -- every connection writes its records; the `Listen` loop takes them in the order they arrived
+          -- in, which must keep each connection's own order
+          let futures := ps.map fun l => l.map fun x => measure name x h
+          let writes := (List.range ps.length).flatMap fun i => (ps[i]?.getD []).map fun _ => Act.write i
+          let acts : Option (List Act) :=
+            if isEnd name then some (writes ++ (List.range ps.length).flatMap fun i => (ps[i]?.getD []).map fun _ => Act.decode i)
+            else (linearise ps xs).map fun order => writes ++ order.flatMap fun i => [Act.decode i, .deliver i]
+          match acts with
+          | none => (s, "reordered")
+          | some acts =>
+            match runNet (netOf mn.m futures) acts with
+            | some n' => ({ s with mon := some { mn with m := n'.mon } }, "ok")
+            | none => (s, "stuck")
     | _, _, _, _ => (s, "bad-op")
   | ["mupd", name, bits, host] =>
     match parseF bits, parseInt host, s.mon with
